@@ -68,6 +68,8 @@ def run(tier, replay=None):
             print("  [%s] %s" % (b["job"], b["what"]))
         return 1 if mine else 0
     import gen
+    from checks.rt_common import model_check
+    mstates, mtrans, mruns = model_check(("Fail",))
     rng = random.Random(vlib.seed())
     n = {"quick": 12, "thorough": 120}[tier]
     progs = shapes.catalogue() + [gen.gen_program(s) for s in range(n)]
@@ -104,7 +106,8 @@ def run(tier, replay=None):
         k = "->".join(r.get("states") or [r["state"]])
         states[k] = states.get(k, 0) + 1
     vlib.write_evidence("C06", tier, "model_checking", {
-        "states": max(1, tlc.distinct), "transitions": max(1, tlc.generated),
+        "states": mstates + tlc.distinct, "transitions": mtrans + tlc.generated,
+        "exhaustive_model_runs": mruns,
         "traces_validated_against_impl": len(specs),
         "samples": [{"program": specs[0]["name"], "fault": specs[0]["faults"],
                      "schedule": results[0]["script"][:40], "states": results[0].get("states")}],
